@@ -205,3 +205,66 @@ func squeezeLines(s string) string {
 	}
 	return strings.Join(out, "\n")
 }
+
+// ---- list items that begin with a blank line (spec 5.2, rule 3) ------------------------
+
+// c06EmptyItemStart: a marker alone on its line (optionally followed by spaces),
+// then optionally one blank line in several spellings, then "foo" indented k
+// columns. The spec fixes the reading: without the blank line the item holds
+// "foo" when k reaches the content column W+1 (as indented code when it is 4 or
+// more beyond it) and is empty otherwise; a list item can begin with at most one
+// blank line, so after a blank line the item is empty and "foo" is outside.
+func c06EmptyItemStart(x *X) {
+	markers := []string{"-", "- ", "-   ", "*", "+ ", "1.", "1. ", "12)"}
+	blanks := []string{"\x00", "", " ", "  ", "   ", "      ", "\t"}
+	m := markers[x.ChooseFree(len(markers))]
+	b := blanks[x.ChooseFree(len(blanks))]
+	k := x.ChooseFree(9)
+	quote := x.ChooseFree(2) == 1
+	bare := strings.TrimRight(m, " ")
+	w := len(bare)
+	open, closeTag := "<ul>", "</ul>"
+	if c := bare[len(bare)-1]; c == '.' || c == ')' {
+		open, closeTag = "<ol>", "</ol>"
+		if bare[:len(bare)-1] != "1" {
+			open = `<ol start="` + bare[:len(bare)-1] + `">`
+		}
+	}
+	lines := []string{m}
+	if b != "\x00" {
+		lines = append(lines, b)
+	}
+	lines = append(lines, strings.Repeat(" ", k)+"foo")
+	code := func(extra int) string { return "<pre><code>" + strings.Repeat(" ", extra) + "foo\n</code></pre>" }
+	var want string
+	switch {
+	case b == "\x00" && k >= w+1 && k-(w+1) >= 4:
+		want = open + "<li>" + code(k-(w+1)-4) + "</li>" + closeTag
+	case b == "\x00" && k >= w+1:
+		want = open + "<li>foo</li>" + closeTag
+	case k >= 4:
+		want = open + "<li></li>" + closeTag + code(k-4)
+	default:
+		want = open + "<li></li>" + closeTag + "<p>foo</p>"
+	}
+	if quote {
+		for i := range lines {
+			lines[i] = "> " + lines[i]
+		}
+		want = "<blockquote>" + want + "</blockquote>"
+	}
+	in := []byte(strings.Join(lines, "\n") + "\n")
+	for vi, v := range append([][]byte{in}, eolVariants(in)...) {
+		blocks, refs := cm.Parse(clone(v))
+		out := renderCfg(blocks, refs, cm.SoftBreakPreserve, false)
+		out = strings.ReplaceAll(strings.ReplaceAll(out, "\r\n", "\n"), "\r", "\n")
+		x.Validated()
+		if got, w := ref.Norm(out), ref.Norm(want); got != w {
+			x.Fail("empty-item-start", fmt.Sprintf("eol=%d", vi), v, "document %q renders (normalized) %q; list item rule 3 of spec 5.2 gives %q", v, got, w)
+			return
+		}
+	}
+	x.Nontrivial()
+	x.Outcome(tree.Hash64(want))
+	x.Sample(fmt.Sprintf("%q -> %s", in, want))
+}
